@@ -245,9 +245,6 @@ theorem bodies_appendBuf (a : Arena) (b : Nat) (f : Bytes) : bodies (appendBuf a
   · subst h; cases a.bufs[b]? <;> simp
   · simp [h]
 
-/-- what an allocation does to the abstract arena: the bytes are appended to the buffer's body -/
-def absAppend (x : List Bytes × List Ref) (b : Nat) (f : Bytes) : List Bytes × List Ref := (x.1.modify b (· ++ f), x.2)
-
 theorem wf_appendBuf {a : Arena} (h : WF a) {b : Nat} (f : Bytes)
     (hcap : (a.bufAt b).data.length + f.length ≤ (a.bufAt b).cap) (hsz : (a.bufAt b).data.length + f.length < 2 ^ 32) :
     WF (appendBuf a b f) := by
